@@ -8,10 +8,17 @@ WT=/tmp/confirm/$NAME
 rm -rf "$WT"; git -C /repo worktree prune; git -C /repo worktree add -q --detach "$WT" HEAD || exit 3
 cd "$WT"
 DEMO=$(python3 -c "import json,sys; print(json.load(open('$D/meta.json'))['demo_cmd'])")
-# place demo files as the demo_cmd expects (it usually starts with a cp)
 git apply "$D/patch.diff" || { echo "CONFIRM: patch does not apply"; exit 3; }
 go build ./... && go build -tags verif ./... || { echo "CONFIRM: does not build"; exit 4; }
 if go test -vet=off -count=1 ./... > /tmp/confirm/$NAME.suite.log 2>&1; then SUITE=pass; else SUITE=FAIL; fi
+# place the demonstration file(s) in the package directory the demo command tests
+PKG=$(python3 -c "
+import json,shlex
+toks=shlex.split(json.load(open('$D/meta.json'))['demo_cmd'])
+c=[t for t in toks if t=='.' or t.startswith('./')]
+print((c[-1] if c else '.').rstrip('/') or '.')")
+mkdir -p "$PKG"
+for f in "$D"/*.go; do [ -f "$f" ] && cp "$f" "$PKG"/; done
 sh -c "$DEMO" > /tmp/confirm/$NAME.demo_with.log 2>&1; WITH=$?
 git checkout -q -- . 
 sh -c "$DEMO" > /tmp/confirm/$NAME.demo_without.log 2>&1; WITHOUT=$?
